@@ -114,6 +114,34 @@ def burst_program(n, kind):
 VT_EXIT_LIMIT_MS = 2000.0
 
 
+def special_program(kind):
+    """hand-written complete programs with known expected output"""
+    if kind == "duplex-gc":
+        # a reader and a writer parked on one socket, referenced by nothing but that stream, while a collection runs
+        src = """(def path (string "/tmp/c20-duplex-" (os/getpid) ".sock"))
+(def srv (net/listen :unix path))
+(def pc (ev/chan 1))
+(ev/go (fn [] (ev/give pc (net/accept srv))))
+(do
+  (def cli (net/connect :unix path))
+  (ev/go (fn [] (ev/read cli 64) (print "reader done")))
+  (ev/go (fn [] (ev/write cli (string/repeat "w" 3000000)) (print "writer done")))
+  nil)
+(def peer (ev/take pc))
+(os/rm path)
+(ev/sleep 0)
+(gccollect) (gccollect)
+(var total 0)
+(while (< total 3000000) (def b (ev/read peer 65536)) (if (nil? b) (break)) (+= total (length b)))
+(ev/write peer "reply")
+(ev/sleep 0.01)
+(ev/close peer) (ev/close srv)
+(print "main returns " total)
+"""
+        return src, sorted(["reader done", "writer done", "main returns 3000000"])
+    raise ValueError(kind)
+
+
 def seqs(maxlen, letters):
     out = [""]
     for n in range(1, maxlen + 1):
@@ -141,6 +169,7 @@ def term_programs(quick):
             for c in (three if not quick else ["", "S", "T", "P"]):
                 for link in ("none", "chan", "cancel"):
                     progs.append(([a, b, c], link, False))
+    progs.append((["duplex-gc"], "special", False))
     for n in (2, 8, 9, 16, 24, 40, 64):
         for kind in ("thread", "proc"):
             progs.append(([str(n)], "burst", kind))
@@ -156,6 +185,8 @@ def run_term(chk):
         idx, (tasks, link, mw) = idx_prog
         if link == "burst":
             src, expect = burst_program(int(tasks[0]), mw)
+        elif link == "special":
+            src, expect = special_program(tasks[0])
         else:
             src, expect = program(tasks, link, mw)
         path = os.path.join(tmp, "p%d.janet" % idx)
@@ -193,6 +224,8 @@ def run_term(chk):
             src, expect = burst_program(int(tasks[0]), mw)
             tasks = ["%s-x%s" % (mw, tasks[0])]
             mw = False
+        elif link == "special":
+            src, expect = special_program(tasks[0])
         else:
             src, expect = program(tasks, link, mw)
         got = sorted(l for l in r.out.decode(errors="replace").split("\n") if l)
